@@ -11,7 +11,7 @@ def sh(cmd, cwd=None, timeout=1800):
 ap = argparse.ArgumentParser(); ap.add_argument('id'); ap.add_argument('variant'); ap.add_argument('--tier', default='quick'); ap.add_argument('--props'); ap.add_argument('--keep', action='store_true'); ap.add_argument('--src', default=None)
 a = ap.parse_args()
 pid = a.id.upper(); props = a.props.split(',') if a.props else [pid]
-src = a.src or ('/tmp/seed6' if a.variant in 'KL' else '/tmp/seed5' if a.variant in 'IJ' else '/tmp/seed4' if a.variant in 'GH' else '/tmp/seed3' if a.variant in 'EF' else '/tmp/seed2' if a.variant in 'CD' else '/tmp/seed')
+src = a.src or ('/tmp/seed7' if a.variant in 'MN' else '/tmp/seed6' if a.variant in 'KL' else '/tmp/seed5' if a.variant in 'IJ' else '/tmp/seed4' if a.variant in 'GH' else '/tmp/seed3' if a.variant in 'EF' else '/tmp/seed2' if a.variant in 'CD' else '/tmp/seed')
 patch = f'{src}/{a.id}.{a.variant}.patch.diff'; demo = f'{src}/{a.id}.{a.variant}.demo_test.go'; metaf = f'{src}/{a.id}.{a.variant}.meta.json'
 kept = f'/verif/seeded/{a.id}-{a.variant}'
 if not os.path.exists(patch) and os.path.exists(kept + '/patch.diff'):
